@@ -1030,6 +1030,56 @@ def matX : Mat ℂ 2 2 := Mat.ofFn fun i j => sigma 1 i.val j.val
 theorem matX_herm : matX.toMᴴ = matX.toM := by
   ext i j
   fin_cases i <;> fin_cases j <;> simp [matX, sigma, Matrix.conjTranspose_apply]
+
+/-! ### a non-degenerate instance of `ONH0` over the EXECUTED scalars: two qubits, `σ_a ⊗ σ_b / 2` (exact in `CRat`) -/
+/-- executable check of `ONH0` over the complex rationals -/
+def onh0Check {d : Nat} (B : Basis CRat d) (z : Fin (d * d)) (s : CRat) : Bool :=
+  ((List.finRange (d * d)).all fun a => (List.finRange d).all fun i => (List.finRange d).all fun j =>
+      decide (conj ((B.get a).get j i) = (B.get a).get i j)) &&
+  ((List.finRange (d * d)).all fun a => (List.finRange (d * d)).all fun b =>
+      decide ((fsum d fun i => fsum d fun j => (B.get a).get i j * (B.get b).get j i) = if a = b then 1 else 0)) &&
+  ((List.finRange d).all fun i => (List.finRange d).all fun j =>
+      decide ((B.get z).get i j = if i = j then s else 0)) &&
+  decide (z.val = 0) && decide (s * s * (d : CRat) = 1)
+
+theorem onh0_of_check {d : Nat} (B : Basis CRat d) (z : Fin (d * d)) (s : CRat) (h : onh0Check B z s = true) :
+    ONH0 B z s := by
+  simp only [onh0Check, Bool.and_eq_true, List.all_eq_true, List.mem_finRange, forall_const, decide_eq_true_eq] at h
+  obtain ⟨⟨⟨⟨h1, h2⟩, h3⟩, h4⟩, h5⟩ := h
+  refine ⟨?_, ?_, ?_, h4, h5⟩
+  · intro a; apply Matrix.ext; intro i j
+    simp only [Matrix.conjTranspose_apply, Bm, Mat.toM_apply]
+    exact h1 a i j
+  · intro a b
+    have := h2 a b
+    simp only [fsum_eq_sum] at this
+    simpa [Matrix.trace, Matrix.mul_apply, Bm] using this
+  · apply Matrix.ext; intro i j
+    simp only [Bm, Mat.toM_apply, Matrix.smul_apply, Matrix.one_apply, smul_eq_mul]
+    rw [h3 i j]; split_ifs <;> simp
+
+/-- single-qubit Pauli entries over `CRat` -/
+def sigmaQ (a i j : Nat) : CRat :=
+  match a, i, j with
+  | 0, 0, 0 => 1 | 0, 1, 1 => 1
+  | 1, 0, 1 => 1 | 1, 1, 0 => 1
+  | 2, 0, 1 => ⟨0, -1⟩ | 2, 1, 0 => ⟨0, 1⟩
+  | 3, 0, 0 => 1 | 3, 1, 1 => ⟨-1, 0⟩
+  | _, _, _ => 0
+
+/-- the normalised two-qubit Pauli basis `σ_a ⊗ σ_b / 2` — exact over the complex rationals (`s = 1/2`) -/
+def basisPauli2 : Basis CRat 4 :=
+  Vec.ofFn fun a => Mat.ofFn fun i j =>
+    (⟨1/2, 0⟩ : CRat) * (sigmaQ (a.val / 4) (i.val / 2) (j.val / 2) * sigmaQ (a.val % 4) (i.val % 2) (j.val % 2))
+
+theorem onh0_basisPauli2 : ONH0 basisPauli2 ⟨0, by decide⟩ (⟨1/2, 0⟩ : CRat) :=
+  onh0_of_check _ _ _ (by decide +kernel)
+
+theorem one_mul_diagC_adj_one {n : Nat} (lam : Vec CRat n) :
+    ((Mat.one : Mat CRat n n).mul (diagC lam)).mul (adj Mat.one) = diagC lam := by
+  apply Mat.toM_injective
+  rw [Mat.toM_mul, Mat.toM_mul, toM_adj, Mat.toM_one]
+  simp
 end examples
 
 end QM.C18
